@@ -608,31 +608,28 @@ Proof.
   intros. by rewrite fupd_ne.
 Qed.
 
-(* the same for SpawnChild; the only trace it leaves is the entry it writes
-   into the caller's children map, which is no change when the incumbent is
-   the caller's child already *)
+(* the same for SpawnChild: no trace at all besides the duplicate event — in
+   particular the caller's children map is as it was *)
 Theorem duplicate_child_is_noop s p i :
   is_live s i = true -> is_live s p = true -> busy s p = false ->
   let s' := sstep s (OSpawnChild p i) in
-  procs s' = procs s /\ runs s' = runs s /\ recvd s' = recvd s /\ gate s' = gate s /\ bad s' = bad s /\
-  dups s' i = S (dups s i) /\ (forall j, j <> i -> dups s' j = dups s j) /\
-  (forall q, q <> p -> kids s' q = kids s q) /\ kids s' p = set_add i (kids s p) /\
-  (mem i (kids s p) = true -> kids s' p = kids s p).
+  procs s' = procs s /\ kids s' = kids s /\ runs s' = runs s /\ recvd s' = recvd s /\
+  gate s' = gate s /\ bad s' = bad s /\
+  dups s' i = S (dups s i) /\ (forall j, j <> i -> dups s' j = dups s j).
 Proof.
   intros H Hp Hb. simpl. rewrite Hp, Hb. simpl. unfold spawn. rewrite H. simpl. rewrite !fupd_eq.
-  split_and!; try done.
-  - intros. by rewrite fupd_ne.
-  - intros. by rewrite fupd_ne.
-  - intros Hm. unfold set_add. by rewrite Hm.
+  split_and!; try done. intros. by rewrite fupd_ne.
 Qed.
 
 (* the incumbent is not one of the caller's children (it was spawned at top
-   level under the child's path): the duplicate SpawnChild still records it in
-   the caller's children map, so the caller's shutdown will poison it *)
-Example duplicate_child_adopts :
+   level under the child's path): the duplicate SpawnChild leaves it alone, and
+   so does the caller's shutdown.  (Historical remark: before fix D21 the caller
+   recorded the incumbent in its children map — [kids s 0 = [2]] here — and its
+   shutdown poisoned it.) *)
+Example duplicate_child_leaves_foreign_incumbent_alone :
   let s := srun sinit [OSpawn 0; OSpawn 2; OSpawnChild 0 2] in
-  runs s 2 = 1 /\ dups s 2 = 1 /\ kids s 0 = [2] /\
-  is_live (sstep s (OStop 0)) 2 = false.
+  runs s 2 = 1 /\ dups s 2 = 1 /\ kids s 0 = [] /\
+  is_live (sstep s (OStop 0)) 2 = true /\ is_live (sstep s (OStop 0)) 0 = false.
 Proof. by vm_compute. Qed.
 
 (* over histories: whatever happened before *)
